@@ -38,6 +38,25 @@ type AAState struct {
 	LastM1     []byte
 	LastF      []byte
 	LastSig    []byte
+
+	// GrindLeadingZero (default off) makes the chip sign again (fresh M1 / fresh ECDSA nonce)
+	// until a signature component is shorter than its field: 1 = the RSA signature
+	// representative or the ECDSA r, 2 = the ECDSA s. The response keeps its fixed length
+	// (RSA, plain ECDSA: a leading zero octet) or uses the shorter DER INTEGER.
+	GrindLeadingZero int
+	GrindTries       int      // truth: extra signatures made
+	LastR, LastS     *big.Int // truth: the last ECDSA signature
+}
+
+func (a *AAState) groundOK(sig []byte) bool {
+	if a.N != nil {
+		return len(sig) > 0 && sig[0] == 0
+	}
+	n := (a.Curve.N.BitLen() + 7) / 8
+	if a.GrindLeadingZero == 2 {
+		return a.LastS != nil && len(a.LastS.Bytes()) < n
+	}
+	return a.LastR != nil && len(a.LastR.Bytes()) < n
 }
 
 // SignRSA builds the ISO/IEC 9796-2 scheme 1 signature over M1 || RND.IFD.
@@ -84,6 +103,7 @@ func (a *AAState) SignEC(rnd []byte) []byte {
 		if !ok {
 			continue
 		}
+		a.LastR, a.LastS = r, s
 		if a.DER {
 			ri, si := derInt(r), derInt(s)
 			body := append(ri, si...)
@@ -114,11 +134,16 @@ func (a *AAState) internalAuthenticate(c *Card, cmd *Cmd) ([]byte, uint16) {
 	}
 	a.Challenges = append(a.Challenges, append([]byte{}, cmd.Data...))
 	c.AAChallenges = a.Challenges
-	var sig []byte
+	sign := a.SignEC
 	if a.N != nil {
-		sig = a.SignRSA(cmd.Data)
-	} else {
-		sig = a.SignEC(cmd.Data)
+		sign = a.SignRSA
+	}
+	sig := sign(cmd.Data)
+	if a.GrindLeadingZero > 0 {
+		for i := 0; i < 20000 && !a.groundOK(sig); i++ {
+			sig = sign(cmd.Data)
+			a.GrindTries++
+		}
 	}
 	a.LastSig = sig
 	if len(sig) > cmd.Ne {
